@@ -108,7 +108,7 @@ class Peer:
             sock.stream += HS.response_101(key, extra=sel)
 
 
-def one_case(u, o):
+def one_case(u, o, via=None):
     lib.reset_globals()
     shim = env.install_urandom("real")
     net = simnet.Net()
@@ -139,18 +139,22 @@ def one_case(u, o):
     if o_conn is not None:
         opts["connection"] = o_conn
     label = "url %s options %r" % (url, opts)
+    if via is None:
+        via = "create_connection" if (len(url) + len(opts)) % 2 else "connect"
+    if via == "app":
+        label += " [through WebSocketApp: header / cookie / subprotocols to the constructor, the rest to run_forever]"
+        env.install_selectors()
     try:
         try:
-            if (len(url) + len(opts)) % 2:
-                ws = lib.websocket.create_connection(url, **opts)
-            else:
-                ws = lib.websocket.WebSocket()
-                ws.connect(url, **opts)
+            ws, e = env.open_via(via, url, {}, opts)
+            if e is not None:
+                raise e
         except Exception as e:
             if not peers or peers[0].request_bytes is None:
                 return ({"kind": "connect-failed", "exc": type(e).__name__}, "%s: connect() raised %s: %s" % (label, type(e).__name__, e))
             return ({"kind": "handshake-failed-after-request", "exc": type(e).__name__}, "%s: %s: %s" % (label, type(e).__name__, e))
     finally:
+        env.uninstall_selectors()
         simnet.uninstall()
         env.uninstall_urandom()
     sock = net.socks[-1]
@@ -161,7 +165,10 @@ def one_case(u, o):
             before += ev[1]
         elif ev[0] == "r":
             break
-    return check_request(before, u, o, shim.draws, label)
+    draws = shim.draws
+    if via == "app":
+        draws = [d for d in draws if len(d) != 4]  # the run ends with close(): the 4-byte draw is the mask key of the close frame
+    return check_request(before, u, o, draws, label)
 
 
 def check_request(raw, u, o, draws, label):
@@ -361,18 +368,22 @@ def run_task(desc):
     U = urls()
     O = options_all()
 
-    def run(u, o):
+    def run(u, o, via=None):
         nonlocal n
         n += 1
         try:
-            f = one_case(u, o)
+            f = one_case(u, o, via)
         except Exception as e:
             v = as_violation(e)
             if v is None:
                 raise
             f = (v.sig, v.what)
         if f is not None:
-            runner.add_failure(res, f[0], f[1], {"case": "one", "u": list(u), "o": [list(x) if isinstance(x, (list, tuple)) else x for x in o]})
+            if via == "app":
+                f = (dict(f[0], via="app"), f[1])
+            runner.add_failure(res, f[0], f[1], {"case": "one", "u": list(u), "o": [list(x) if isinstance(x, (list, tuple)) else x for x in o], "via": via})
+        if via is None and o[6] is None and part in ("urls", "opts"):
+            run(u, o, "app")  # the same request through WebSocketApp (the `connection` option cannot be given there)
 
     part = desc["part"]
     if part == "urls":
@@ -425,5 +436,5 @@ def replay(rep):
         f = successive_case(tuple(rep["u"]), tuple(rep["o"]))
     else:
         o = tuple(rep["o"])
-        f = one_case(tuple(rep["u"]), o)
+        f = one_case(tuple(rep["u"]), o, rep.get("via"))
     return None if f is None else {"sig": f[0], "what": f[1]}
